@@ -10,6 +10,9 @@ from contracts.concat import ConcatHistories, DeleteIndexData, FetchStartIndex
 from contracts.writer import StoredEditsNative
 CONTRACTS = list(_H) + list(_T) + [c for c in _R if c.__name__ != 'SingleDeletionSweep'] + list(_A) + [RemoveRecursively, RemoveDataFromGroups, RemoveNoneReferents, CloseContract, ApiHistories, ConcatHistories, StoredEditsNative, DeleteIndexData, FetchStartIndex, ImageCornersNative]
 
+from contracts.identity import EntityInitRefusal, MapAttributesStub
+CONTRACTS = list(CONTRACTS) + [MapAttributesStub, EntityInitRefusal]
+
 MANIFEST = {
     "category": "other",
     "text": "Partial deductive coverage of the round trip, by operation: every mutating step has a contract elsewhere that pins what reaches the file (C03 setters and writer dispatch, C09/C02 writer functions over the link graph, C05 removals, C04 concatenated tables), and this module adds the tree-level ones: Entity.parent.fset (joins new parent, leaves the old one only when it differs, re-saved), PropertyGroup.remove_properties/add_properties, Workspace.remove_recursively, remove_none_referents (exactly the dead keys leave, for every liveness pattern), Workspace.open (empty registries before the tree is loaded), Workspace.close (whole tree saved before the handle is released), Concatenator.add_save_concatenated. The read-back half (H5Reader.fetch_children / fetch_attributes) is verified in C19's module. The end-to-end statement 'the re-opened tree equals the live tree' over whole histories, class dispatch on load and garbage-collection placement is a seeded bounded stand-in (live snapshot vs re-opened snapshot). Since then the check also carries the reader contracts (fetch_children / fetch_attributes incl. value identity / fetch_array_attribute), the geometry-removal contracts of C07 (the reduced arrays go through the persisting setters), H5Writer.write_array_attribute, the _all_<kind> registry sweeps, and API histories with names containing blanks or equal to the project group's name, vertex removal, copy-then-edit and data moves. Later additions: H5Writer.save_entity itself (every non-property-group child is handed to save_entity whether or not the entity or the child is already stored, which is what the final save on close relies on for entities created with save_on_creation=False), a deferred-creation step in the API histories, and the drillhole-group histories of C04 (removals of depth/interval/object-association data followed by a re-open). Round-6 additions: stored-edit sessions (values re-assigned for every data class, part labels on stored curves, attached files renamed), write_entity with write_entity_type executed (type flag of newly written entities), rename / shared-type / comment operations in the drillhole histories. Round-7 additions: the parent setter for data as well as objects, the table contracts of the drillhole storage (delete_index_data, fetch_start_index) and histories that edit the third or later entry of a channel.",
